@@ -365,6 +365,74 @@ func shiftRange(n uint) string {
 	}
 }
 
+// evalOne applies op to (a, b, n) and compares with the exact result. evaluated=false: outside the property.
+func evalOne(c *core.Ctx, op opCase, limbs int, a, b []uint64, n uint) (detail map[string]any, evaluated bool, stop bool) {
+	width := uint(64 * limbs)
+	ba, bb := toBig(a), toBig(b)
+	ev, eints, fits, skip := op.exp(ba, bb, n, width)
+	if skip {
+		return nil, false, false
+	}
+	c.Risk(fmt.Sprintf("%s a=%s b=%s n=%d", op.name, hex(a), hex(b), n))
+	got := guarded(func() outcome { return op.run(a, b, n) })
+	detail = map[string]any{"type": fmt.Sprintf("Uint%d", width), "op": op.name, "a": hex(a), "b": hex(b), "n": n}
+	cls := op.name
+	if op.name == "LeftShift" || op.name == "RightShift" {
+		cls += ":shift:" + shiftRange(n)
+	}
+	classA := "fit"
+	if ev != nil && !fits {
+		classA = "nofit"
+	}
+	c.Key("%d/%s/%s/%d/%d/%s", limbs, op.name, classA, ba.BitLen()/64, bb.BitLen()/64, shiftRange(n))
+	if got.hung {
+		c.Violate(cls+":no-return", fmt.Sprintf("Uint%d.%s did not return within 30 s", width, op.name), detail)
+		return detail, true, true
+	}
+	if op.signals {
+		if !fits && !got.panicked {
+			detail["got"] = hex(got.limbs)
+			detail["exact"] = ev.String()
+			kind := "partial-products"
+			if ba.BitLen() > int(width)/2 && bb.BitLen() > int(width)/2 {
+				kind = "both-operands-wider-than-half"
+			}
+			c.Violate(cls+":overflow-missed:"+kind, fmt.Sprintf("Uint%d.%s: exact result does not fit but no overflow was signalled", width, op.name), detail)
+			return detail, true, false
+		}
+		if fits && got.panicked {
+			detail["exact"] = ev.String()
+			c.Violate(cls+":overflow-spurious", fmt.Sprintf("Uint%d.%s: overflow signalled although the exact result fits", width, op.name), detail)
+			return detail, true, false
+		}
+		if !fits {
+			return detail, true, false
+		}
+	} else if got.panicked {
+		c.Violate(cls+":panic", fmt.Sprintf("Uint%d.%s panicked", width, op.name), detail)
+		return detail, true, false
+	}
+	if ev != nil {
+		rl := limbs
+		if op.resLimbs != 0 {
+			rl = op.resLimbs
+		}
+		want := fromBig(ev, rl)
+		if hex(want) != hex(got.limbs) {
+			detail["got"] = hex(got.limbs)
+			detail["want"] = hex(want)
+			c.Violate(cls+":value", fmt.Sprintf("Uint%d.%s returns a wrong value", width, op.name), detail)
+		}
+	} else {
+		if fmt.Sprint(eints) != fmt.Sprint(got.ints) {
+			detail["got"] = got.ints
+			detail["want"] = eints
+			c.Violate(cls+":value", fmt.Sprintf("Uint%d.%s returns a wrong value", width, op.name), detail)
+		}
+	}
+	return detail, true, false
+}
+
 func runType(c *core.Ctx, limbs int, ops []opCase) {
 	log.SetOutput(io.Discard)
 	width := uint(64 * limbs)
@@ -395,68 +463,13 @@ func runType(c *core.Ctx, limbs int, ops []opCase) {
 		default:
 			n = uint(c.Rng.Intn(int(width) + 65))
 		}
-		ba, bb := toBig(a), toBig(b)
-		ev, eints, fits, skip := op.exp(ba, bb, n, width)
-		if skip {
+		detail, evaluated, stop := evalOne(c, op, limbs, a, b, n)
+		if !evaluated {
 			continue
 		}
 		evals++
-		c.Risk(fmt.Sprintf("%s a=%s b=%s n=%d", op.name, hex(a), hex(b), n))
-		got := guarded(func() outcome { return op.run(a, b, n) })
-		detail := map[string]any{"type": fmt.Sprintf("Uint%d", width), "op": op.name, "a": hex(a), "b": hex(b), "n": n}
-		cls := op.name
-		if op.name == "LeftShift" || op.name == "RightShift" {
-			cls += ":shift:" + shiftRange(n)
-		}
-		classA := "fit"
-		if ev != nil && !fits {
-			classA = "nofit"
-		}
-		c.Key("%d/%s/%s/%d/%d/%s", limbs, op.name, classA, ba.BitLen()/64, bb.BitLen()/64, shiftRange(n))
-		if got.hung {
-			c.Violate(cls+":no-return", fmt.Sprintf("Uint%d.%s did not return within 30 s", width, op.name), detail)
+		if stop {
 			return
-		}
-		if op.signals {
-			if !fits && !got.panicked {
-				detail["got"] = hex(got.limbs)
-				detail["exact"] = ev.String()
-				kind := "partial-products"
-				if ba.BitLen() > int(width)/2 && bb.BitLen() > int(width)/2 {
-					kind = "both-operands-wider-than-half"
-				}
-				c.Violate(cls+":overflow-missed:"+kind, fmt.Sprintf("Uint%d.%s: exact result does not fit but no overflow was signalled", width, op.name), detail)
-				continue
-			}
-			if fits && got.panicked {
-				detail["exact"] = ev.String()
-				c.Violate(cls+":overflow-spurious", fmt.Sprintf("Uint%d.%s: overflow signalled although the exact result fits", width, op.name), detail)
-				continue
-			}
-			if !fits {
-				continue
-			}
-		} else if got.panicked {
-			c.Violate(cls+":panic", fmt.Sprintf("Uint%d.%s panicked", width, op.name), detail)
-			continue
-		}
-		if ev != nil {
-			rl := limbs
-			if op.resLimbs != 0 {
-				rl = op.resLimbs
-			}
-			want := fromBig(ev, rl)
-			if hex(want) != hex(got.limbs) {
-				detail["got"] = hex(got.limbs)
-				detail["want"] = hex(want)
-				c.Violate(cls+":value", fmt.Sprintf("Uint%d.%s returns a wrong value", width, op.name), detail)
-			}
-		} else {
-			if fmt.Sprint(eints) != fmt.Sprint(got.ints) {
-				detail["got"] = got.ints
-				detail["want"] = eints
-				c.Violate(cls+":value", fmt.Sprintf("Uint%d.%s returns a wrong value", width, op.name), detail)
-			}
 		}
 		if i == 0 {
 			c.Sample(detail)
@@ -466,18 +479,99 @@ func runType(c *core.Ctx, limbs int, ops []opCase) {
 	c.Count("evaluations."+op.name, evals)
 }
 
+// crossWords: the limb values the boundary cross product is built from.
+var crossWords = []uint64{0, 1, 2, 3, 0x00000000ffffffff, 0x0000000100000000, 0x0000000100000001, 0x7fffffffffffffff, 0x8000000000000000, 0xfffffffffffffffe, 0xffffffffffffffff}
+
+// boundarySet: every value with one or two adjacent non-zero limbs taken from crossWords, each also
+// shifted by -2..2, plus the 8 largest values: the places where carries, borrows, trial quotients and
+// overflow tests change their behaviour.
+func boundarySet(limbs int, words []uint64, maxDelta int64) [][]uint64 {
+	mod := new(big.Int).Lsh(big.NewInt(1), uint(64*limbs))
+	seen := map[string]bool{}
+	var out [][]uint64
+	add := func(b *big.Int) {
+		b = new(big.Int).Mod(b, mod)
+		k := b.Text(16)
+		if !seen[k] {
+			seen[k] = true
+			out = append(out, fromBig(b, limbs))
+		}
+	}
+	for j := 0; j < limbs; j++ {
+		for _, hi := range words {
+			for _, lo := range words {
+				if j == 0 && hi != 0 {
+					continue
+				}
+				v := new(big.Int).SetUint64(hi)
+				v.Lsh(v, 64)
+				v.Add(v, new(big.Int).SetUint64(lo))
+				if j > 0 {
+					v.Lsh(v, uint(64*(j-1)))
+				}
+				for d := -maxDelta; d <= maxDelta; d++ {
+					add(new(big.Int).Add(v, big.NewInt(d)))
+				}
+			}
+		}
+	}
+	for d := int64(1); d <= 8; d++ {
+		add(new(big.Int).Sub(mod, big.NewInt(d)))
+	}
+	return out
+}
+
+var crossShards = 16
+
+// runCross: every operation on every pair of the boundary set (case i takes the left operands i, i+16, ...).
+func runCross(c *core.Ctx, limbs int, ops []opCase) {
+	log.SetOutput(io.Discard)
+	words := crossWords
+	if c.Quick() {
+		words = []uint64{0, 1, 3, 0x00000000ffffffff, 0x0000000100000001, 0x7fffffffffffffff, 0xffffffffffffffff}
+	}
+	set := boundarySet(limbs, words, int64(c.Pick(1, 2)))
+	shifts := []uint{0, 1, 63, 64, 65, 127, 128, 129, 191, 192, 255, 256, 257, 300}
+	evals := 0
+	for ia := c.Idx; ia < len(set); ia += crossShards {
+		a := set[ia]
+		for ib, b := range set {
+			n := shifts[(ia+ib)%len(shifts)]
+			for _, op := range ops {
+				detail, evaluated, stop := evalOne(c, op, limbs, a, b, n)
+				if !evaluated {
+					continue
+				}
+				evals++
+				if stop {
+					return
+				}
+				if ia == c.Idx && ib == 7 && op.name == ops[0].name {
+					c.Sample(detail)
+				}
+			}
+		}
+	}
+	c.Count("evaluations", evals)
+	c.Count("cross_product_pairs", evals/len(ops))
+	c.Count("boundary_set_size", len(set))
+}
+
 func init() {
 	o64, o128, o256 := ops64(), ops128(), ops256()
 	core.Register(&core.Property{
 		ID:    "C20",
 		Level: "exploration",
-		Rule: "each case = one (type, operation) applied to a batch of operand pairs drawn from per-limb boundary words, 2^k-1/2^k/2^k+1, equal and neighbouring operands, random bit lengths and random values, shift amounts 0..width+64 with emphasis on multiples of 64 +-1; " +
+		Rule: "each case = one (type, operation) applied to a batch of operand pairs drawn from per-limb boundary words, 2^k-1/2^k/2^k+1, equal and neighbouring operands, random bit lengths and random values, shift amounts 0..width+64 with emphasis on multiples of 64 +-1; the -cross sub-checks apply every operation to EVERY ordered pair of a boundary set (values with one or two adjacent non-zero limbs out of 7 (quick) / 11 (thorough) boundary words, each -1..+1 (quick) / -2..+2 (thorough), and the 8 largest values); " +
 			"oracle math/big on raw limbs; distinct_nontrivial = distinct (type, operation, fits/overflows, limb count of a, limb count of b, shift range) classes actually evaluated; division by zero and narrowing of values that do not fit are outside the property and skipped",
 		Assume: []string{"math/big is exact", "the overflow signal is the recoverable log.Panicf of the library", "an operation on at most 256 bits that does not return within 30 s never returns"},
 		Subs: []core.Sub{
 			{Name: "u64", N: core.Const(len(o64)*4, len(o64)*128), Run: func(c *core.Ctx) { runType(c, 1, o64) }},
 			{Name: "u128", N: core.Const(len(o128)*4, len(o128)*128), Run: func(c *core.Ctx) { runType(c, 2, o128) }},
 			{Name: "u256", N: core.Const(len(o256)*4, len(o256)*128), Run: func(c *core.Ctx) { runType(c, 4, o256) }},
+			{Name: "u64-cross", N: core.Const(crossShards, crossShards), Run: func(c *core.Ctx) { runCross(c, 1, o64) }},
+			{Name: "u128-cross", N: core.Const(crossShards, crossShards), Run: func(c *core.Ctx) { runCross(c, 2, o128) }},
+			{Name: "u256-cross", N: core.Const(crossShards, crossShards), Run: func(c *core.Ctx) { runCross(c, 4, o256) }},
 		},
 		MinNontrivial: 100,
 	})
